@@ -282,6 +282,8 @@ class NumpyModel:
                 base.update(kwargs)
                 return None
             if name == "setdefault":
+                if _h(args[0]) not in base:
+                    I.emit("dict-store", (id(base), keyof(args[0])), node)
                 return base.setdefault(_h(args[0]), args[1] if len(args) > 1 else None)
             if name == "copy":
                 return dict(base)
@@ -884,15 +886,15 @@ class NumpyModel:
                 ids.append(id(b))
             self.I.emit("dtype-from", tuple(ids))
 
-    def np_zeros(self, shape, dtype=None):
+    def np_zeros(self, shape, dtype=None, order=None, **kw):
         self._note_dtype(dtype)
         return full(_shape(shape), 0)
 
-    def np_ones(self, shape, dtype=None):
+    def np_ones(self, shape, dtype=None, order=None, **kw):
         self._note_dtype(dtype)
         return full(_shape(shape), 1)
 
-    def np_empty(self, shape, dtype=None):
+    def np_empty(self, shape, dtype=None, order=None, **kw):
         self._note_dtype(dtype)
         a = np.empty(_shape(shape), dtype=object)
         a.fill(UNINIT)
@@ -1269,8 +1271,13 @@ class NumpyModel:
             from .interp import RaiseSig
             raise RaiseSig(ExcVal("ValueError", args=(str(ex),), node=node))
 
-    def np_matmul(self, a, b):
-        return self.matmul(a, b, None)
+    def np_matmul(self, a, b, out=None, **kw):
+        r = self.matmul(a, b, None)
+        if out is not None and isinstance(out, np.ndarray):
+            out[...] = r
+            self.I.emit("inplace", ("out", id(out)))
+            return out
+        return r
 
     def np_cross(self, a, b):
         a, b = self.np_asarray(a), self.np_asarray(b)
